@@ -157,6 +157,70 @@ func (x *Exec) verifyBody(fn *ssa.Function, c *Contract, res *FuncResult) {
 		x.frameObligations(fr, c, out, penv)
 	}
 	x.inventoryObligations(fn, c)
+	x.allowedCallsObligation(fn, c)
+}
+
+// allowedCallsObligation: the body (including its closures) calls only the
+// listed callees — a syntactic obligation over the SSA ("no other call touches
+// the protected resource").
+func (x *Exec) allowedCallsObligation(fn *ssa.Function, c *Contract) {
+	ac := c.AllowedCalls
+	if ac == nil {
+		return
+	}
+	allowed := map[string]bool{}
+	for _, n := range ac.Names {
+		allowed[n] = true
+	}
+	var offenders []string
+	var visit func(f *ssa.Function)
+	visit = func(f *ssa.Function) {
+		for _, b := range f.Blocks {
+			for _, in := range b.Instrs {
+				ci, ok := in.(ssa.CallInstruction)
+				if !ok {
+					continue
+				}
+				cc := ci.Common()
+				name := ""
+				switch {
+				case cc.IsInvoke():
+					name = cc.Method.Name()
+				default:
+					switch v := cc.Value.(type) {
+					case *ssa.Builtin:
+						continue
+					case *ssa.Function:
+						name = funcKey(v)
+						if v.Pkg != nil && v.Pkg != fn.Pkg {
+							name = v.Pkg.Pkg.Name() + "." + name
+						}
+					case *ssa.MakeClosure:
+						continue // the closure body is visited below
+					default:
+						name = "dynamic"
+					}
+				}
+				if !allowed[name] {
+					offenders = append(offenders, name+" ("+x.prog.pos(in.Pos())+")")
+				}
+			}
+		}
+		for _, af := range f.AnonFuncs {
+			visit(af)
+		}
+	}
+	visit(fn)
+	name := fmt.Sprintf("%s#allowed-calls", funcKey(fn))
+	if ac.Tag != "" {
+		name = fmt.Sprintf("%s#%s.allowed-calls", funcKey(fn), ac.Tag)
+	}
+	formula, src := "true", "the body calls only: "+strings.Join(ac.Names, ", ")
+	if len(offenders) > 0 {
+		formula = "false"
+		src += "; other calls: " + strings.Join(offenders, "; ")
+	}
+	x.addObl(&Obligation{Name: name, Kind: "inventory", Tag: ac.Tag, Func: funcKey(fn), Pos: fmt.Sprintf("%s:%d", shortPath(c.File), ac.Line), Guard: "true", Formula: formula, Src: src})
 }
 
 // inventoryObligations: "Type.field is referenced only in the listed functions" —
